@@ -49,6 +49,11 @@ def cases(draw, tier):
             "P": draw(st.sampled_from(["none", "none", "jacobi", "spd", "nystrom"])),
             "tol_exp": draw(st.integers(-12, -1)), "max_iters": draw(st.integers(0, 2 * n)),
             "zero_col": draw(st.booleans()) and nrhs >= 2}
+    # single precision (float32 / complex64) for the sub-checks whose tolerances scale with eps
+    case["single"] = sub in ("stopping", "zero_rhs", "via_inv", "scaling") and draw(st.integers(1, 4)) == 1
+    if case["single"]:
+        case["tol_exp"] = max(case["tol_exp"], -5)
+        case["kappa"] = min(case["kappa"], 100.0)
     if case["zero_col"] and case["x0"] == "drawn":
         case["x0"] = "zero"  # the relative criterion is undefined for a zero column with a non-zero guess
     if sub == "optimal":
@@ -86,6 +91,9 @@ def build_system(case):
         X0 = np.zeros((n, k), dtype=B.dtype)
     if case["nrhs"] == 0:
         B, X0 = B[:, 0], X0[:, 0]
+    if case.get("single"):
+        dt = np.complex64 if cplx else np.float32
+        A, B, X0 = A.astype(dt), B.astype(dt), X0.astype(dt)
     return A, lam, B, X0
 
 
@@ -140,7 +148,9 @@ def check(case, out):
     tol = 10.0 ** case["tol_exp"]
     k = case["max_iters"]
     x0_none = case["x0"] == "none"
-    eps = np.finfo(np.float64).eps
+    eps = np.finfo(np.float32 if case.get("single") else np.float64).eps
+    if case.get("single"):
+        out.label("single_precision")
     out.nontrivial = (k < n) or P is not None or case["x0"] == "drawn" or (case["nrhs"] >= 2) or case["cplx"]
     site = f"cg:{'P' if P is not None else 'noP'}:{'x0' if case['x0'] == 'drawn' else 'x0=0'}"
 
